@@ -23,7 +23,7 @@ func propC07() *Property {
 			{ID: "R07.4", Floor: 8, Text: "Registry.users is written only by Swap in SetUsers with the old cache retired; discoverUser returns a result under requireCurrent only after publisher.Load()==state was re-checked after tryState; fields of state/user are stored only in buildState; Authentication.generation is dereferenced only in recordAuthenticated after being cleared", Run: r07_4},
 			{ID: "R07.7", Floor: 2, Text: "tryState returns a failure only after whole phases, never from inside a candidate loop", Run: r07_7},
 			{ID: "R07.8", Floor: 2, Text: "every SetUsers call publishes a generation built from its argument (or skips only after comparing every field of the user message)", Run: ruleSetUsersPublishes},
-			{ID: "R07.5", Floor: 4, Text: "Authentication.Record is called only from the two commitServerUserAuthentication; the stream commit follows onOpenSessionRequest()==nil, the packet commit follows AddSession, dispatch and the readySessions hand-over", Run: r07_5},
+			{ID: "R07.5", Floor: 2, Text: "Authentication.Record is called only from the two commitServerUserAuthentication; the stream commit follows onOpenSessionRequest()==nil, the packet commit follows AddSession, dispatch and the readySessions hand-over", Run: r07_5},
 			{ID: "R07.6", Floor: 3, Text: "Session.userName is stored only in Session.input from seg.block.BlockContext().UserName; Session.userPolicy is stored only in the constructor and in Session.input", Run: r07_6},
 		},
 	}
@@ -533,24 +533,50 @@ func r07_5(c *RC) {
 		c.Anchor("serveruser.Authentication.Record")
 		return
 	}
-	for _, cs := range p.CallsToFn(rec) {
-		key := "Record@" + fnName(cs.Fn)
-		if cs.Fn.Name() != "commitServerUserAuthentication" {
-			c.Bad(key, cs.Pos(), "the source-to-user association is recorded in %s, outside commitServerUserAuthentication", fnName(cs.Fn))
-		} else {
-			c.OK(key, cs.Pos(), "single recording point")
-		}
+	// The recording point is found by role, not by name: every call of
+	// Authentication.Record, lifted through thin unexported wrappers
+	// (commitServerUserAuthentication today) to the place where the decision
+	// to record is taken.
+	type site struct {
+		Fn    *ssa.Function
+		Instr ssa.Instruction
 	}
-	for _, tn := range []string{"StreamUnderlay", "PacketUnderlay"} {
-		cm := p.Fn(protoPkg, tn+".commitServerUserAuthentication")
-		if cm == nil {
-			c.Anchor(tn + ".commitServerUserAuthentication")
+	var lift func(fn *ssa.Function, in ssa.Instruction, d int) []site
+	lift = func(fn *ssa.Function, in ssa.Instruction, d int) []site {
+		name := fn.Name()
+		if d >= 2 || name == "onOpenSessionRequest" || name == "RunEventLoop" || fn.Object() == nil || fn.Object().Exported() {
+			return []site{{fn, in}}
+		}
+		callers := p.CallsToFn(fn)
+		var prod []Site
+		for _, cs := range callers {
+			if !strings.HasSuffix(strings.SplitN(p.Pos(cs.Pos()), ":", 2)[0], "_test.go") {
+				prod = append(prod, cs)
+			}
+		}
+		if len(prod) == 0 {
+			return []site{{fn, in}}
+		}
+		var out []site
+		for _, cs := range prod {
+			out = append(out, lift(cs.Fn, cs.Instr, d+1)...)
+		}
+		return out
+	}
+	n := 0
+	for _, rc := range p.CallsToFn(rec) {
+		if strings.HasSuffix(strings.SplitN(p.Pos(rc.Pos()), ":", 2)[0], "_test.go") {
 			continue
 		}
-		for _, cs := range p.CallsToFn(cm) {
+		for _, cs := range lift(rc.Fn, rc.Instr, 0) {
+			n++
+			recvT := ""
+			if cs.Fn.Signature.Recv() != nil {
+				recvT = cs.Fn.Signature.Recv().Type().String()
+			}
 			key := "commit@" + fnName(cs.Fn)
-			switch tn {
-			case "StreamUnderlay":
+			switch {
+			case strings.HasSuffix(recvT, "StreamUnderlay"):
 				ok := false
 				// the commit must be unreachable from the err != nil edge of onOpenSessionRequest and dominated by the call
 				instrs(cs.Fn, func(_ *ssa.BasicBlock, _ int, in ssa.Instruction) {
@@ -571,11 +597,11 @@ func r07_5(c *RC) {
 					}
 				})
 				if ok {
-					c.OKH(key, cs.Pos(), "commit only after onOpenSessionRequest returned nil (validated, session added, dispatched, handed over)")
+					c.OKH(key, cs.Instr.Pos(), "stream: recorded only after onOpenSessionRequest returned nil (validated, session added, dispatched, handed over)")
 				} else {
-					c.Bad(key, cs.Pos(), "the stream commit of a source-to-user association is not restricted to the success of onOpenSessionRequest: an unvalidated first segment could poison the cache")
+					c.Bad(key, cs.Instr.Pos(), "the stream transport records a source-to-user association without the success of onOpenSessionRequest: an unvalidated first segment could poison the cache")
 				}
-			case "PacketUnderlay":
+			case strings.HasSuffix(recvT, "PacketUnderlay"):
 				need := map[string]bool{"AddSession": false, "deliverSegmentToSession": false}
 				instrs(cs.Fn, func(_ *ssa.BasicBlock, _ int, in ssa.Instruction) {
 					if cl, isCall := in.(*ssa.Call); isCall {
@@ -597,12 +623,17 @@ func r07_5(c *RC) {
 					}
 				})
 				if need["AddSession"] && need["deliverSegmentToSession"] && sel && cs.Fn.Name() == "onOpenSessionRequest" {
-					c.OKH(key, cs.Pos(), "commit dominated by AddSession, dispatch and the readySessions hand-over")
+					c.OKH(key, cs.Instr.Pos(), "datagram: recorded only after AddSession, dispatch and the readySessions hand-over")
 				} else {
-					c.Bad(key, cs.Pos(), "the packet commit is not dominated by AddSession (%v), deliverSegmentToSession (%v) and the readySessions hand-over (%v)", need["AddSession"], need["deliverSegmentToSession"], sel)
+					c.Bad(key, cs.Instr.Pos(), "the datagram transport records a source-to-user association in %s without being dominated by AddSession (%v), deliverSegmentToSession (%v) and the readySessions hand-over (%v)", fnName(cs.Fn), need["AddSession"], need["deliverSegmentToSession"], sel)
 				}
+			default:
+				c.Bad(key, cs.Instr.Pos(), "the source-to-user association is recorded in %s, which is neither underlay's accepted-session path", fnName(cs.Fn))
 			}
 		}
+	}
+	if n == 0 {
+		c.Bad("commit", rec.Pos(), "Authentication.Record is never called: the source cache would never learn")
 	}
 }
 
